@@ -52,7 +52,7 @@ def ensemble(rng, r):
     else:
         rhos = [gen.density(rng, big, int(rng.integers(1, 4)), cplx) for _ in range(n)]
         inp = [x.copy() for x in rhos]
-    pk = (r // 4) % 2
+    pk = [0, 1, 3, 1][(r // 4) % 4]
     p = gen.prior(rng, n, pk)
     return dict(dims=dims, n=n, cplx=cplx, form=form, inp=inp, rhos=rhos, p=p, pk=pk)
 
